@@ -60,6 +60,17 @@ def cases(tier, seed):
         for pi, (rq, rs) in enumerate(picks[:k]):
             if isinstance(rq[1], dict) and isinstance(rs[1], dict):
                 out.append((version, action, rq[1], rs[1], rng.choice([False, True, "mixed"])))
+                if pi in (0, 3) and version == "1.6":
+                    # the OCPP 1.6 data types by shape (the 1.6 classes annotate Dict / List): every optional present, and the
+                    # boundary instance (strings exactly as long as the schema allows, lists exactly as long)
+                    try:
+                        pq = N.make_request(version, action, GD.snake(rq[1]), "fit")
+                        ps = N.make_result(version, action, GD.snake(rs[1]), "fit")
+                        if N.contains_dataclass([getattr(pq, f.name) for f in dataclasses.fields(pq)]) or \
+                                N.contains_dataclass([getattr(ps, f.name) for f in dataclasses.fields(ps)]):
+                            out.append((version, action, rq[1], rs[1], "fit"))
+                    except Exception:  # noqa: BLE001 - a data type that refuses a schema-valid value: the exchange below reports it
+                        out.append((version, action, rq[1], rs[1], "fit"))
                 if pi == 0:
                     # the instance with every optional: also as plain dicts that hold data-type objects deeper inside
                     # (only where that differs from plain dicts, i.e. the classes nest at least two levels)
@@ -118,9 +129,31 @@ def cold_exchanges(rep):
                               dict(replay, observation=repr(out[1])[:1500]))
 
 
+def slow_handlers(rep):
+    """The handling endpoint's response_timeout bounds the wait for replies to ITS OWN requests; a coroutine handler that
+    takes longer than that still delivers its result to the caller (who waits with a timeout of its own)."""
+    import importlib
+    for version in ("1.6", "2.0.1"):
+        pkg = N.modname(version)
+        call = importlib.import_module("ocpp.%s.call" % pkg)
+        cr = importlib.import_module("ocpp.%s.call_result" % pkg)
+        for delay, b_timeout in ((0.12, 0.03), (0.05, 0.03), (0.0, 0.03)):
+            res = N.run_loopback(version, "Heartbeat", call.Heartbeat(), lambda kw: cr.Heartbeat(current_time="2024-01-01T00:00:00Z"),
+                                 handler_delay=delay, b_timeout=b_timeout)
+            rep.count("slow-handler:%s:%s" % (version, delay))
+            oc = res["outcome"]
+            if oc[0] != "result" or oc[1] != {"current_time": "2024-01-01T00:00:00Z"}:
+                rep.violation("C06:slow-handler:%s" % version,
+                              "handler taking %.2f s on an endpoint whose response_timeout is %.2f s (the caller waits 3 s): call() ended with %r, "
+                              "reply on the wire %r" % (delay, b_timeout, oc[:3], res["reply"]),
+                              {"kind": "slow-handler", "version": version, "handler_delay": delay, "handling_endpoint_response_timeout": b_timeout,
+                               "observation": {"reply": res["reply"], "outcome": list(map(str, oc[:3]))}})
+
+
 def body_factory(tier, seed):
     def body(rep, support_ok):
         cold_exchanges(rep)
+        slow_handlers(rep)
         schemas = {"1.6": G.load_schemas("v16"), "2.0.1": G.load_schemas("v201")}
         terms, meta = [], []
         n_lb = [0]
@@ -220,6 +253,20 @@ def run(rep, tier, seed):
 
 
 def replay(d):
+    if d.get("kind") == "slow-handler":
+        class R:
+            hit = []
+
+            def count(self, *_a):
+                pass
+
+            def violation(self, key, what, *_a, **_k):
+                self.hit.append(key)
+                print(what)
+        r = R()
+        slow_handlers(r)
+        print("FAILS" if r.hit else "HOLDS")
+        return 1 if r.hit else 0
     if d.get("kind") == "cold-exchange":
         class R:
             hit = []
